@@ -115,9 +115,13 @@ int main(int argc, char** argv) {
         emit_done("use");
     };
 
+    // client identifiers are user-chosen strings kept in an ordered container: register them
+    // in an order that is neither ascending nor descending
+    static const char* const kClientNames[] = {"ui", "cli", "svc", "c10", "c2", "Z", "a", "m"};
     std::vector<Port*> ports;
     for (int k = 0; k < clients; ++k) {
-        Port& p = shell.ProvidesMultiClientApi("c" + std::to_string(k)).port;
+        const std::string ident = k < 8 ? kClientNames[k] : "c" + std::to_string(k);
+        Port& p = shell.ProvidesMultiClientApi(ident).port;
         p.out.Done = [k](Id t) { g_deliveries.push_back({k, t.id}); };
         ports.push_back(&p);
     }
